@@ -286,21 +286,30 @@ Proof.
     replace y with (u + s * l2) at 1 by lra. field. lra.
 Qed.
 
-(* the generated function, branch by branch *)
-Lemma x2_eq : dot2 (v3_sub (v3_scale (v3_sub p a) l2) (v3_scale (v3_sub b a) y)) = l2 * X.
-Proof.
-  unfold dot2, X, y, l2, w, d, v3_dot, v3_sub, v3_scale, dot, psub. carrier_R. cbn [v3x v3y v3z]. ring.
-Qed.
+(* the generated function, branch by branch.  The generated term is first reduced to coordinates (every helper
+   of the Go source — dot2, LengthSquared, Dot, Scale ... — unfolds to the same arithmetic on coordinates, so the
+   proof does not depend on how the source spells |v|^2), then the coordinate forms of l2, y, x2 are folded *)
+Lemma x2_eq :
+  ((v3x p - v3x a) * l2 - (v3x b - v3x a) * y) * ((v3x p - v3x a) * l2 - (v3x b - v3x a) * y) +
+  ((v3y p - v3y a) * l2 - (v3y b - v3y a) * y) * ((v3y p - v3y a) * l2 - (v3y b - v3y a) * y) +
+  ((v3z p - v3z a) * l2 - (v3z b - v3z a) * y) * ((v3z p - v3z a) * l2 - (v3z b - v3z a) * y) = l2 * X.
+Proof. unfold X, y, l2, w, d, dot, psub. cbn [v3x v3y v3z]. ring. Qed.
 
 Theorem rcone_is_min : rcone_min a b r1 r2 p (RoundedCone a b r1 r2 p).
 Proof.
   assert (Hl := l2_pos). assert (Ha2 := a2_pos). assert (HA := A_pos). assert (HX := X_nonneg).
   assert (Hxi := xi_nonneg). assert (Exi := xi_sq). assert (EA := A_sq).
   unfold rcone_min. fold (phi). change (fun s => dist p (rcone_centre a b s) - rcone_radius r1 r2 s) with phi.
-  unfold RoundedCone. cbv zeta.
-  change (v3_dot (v3_sub b a) (v3_sub b a)) with l2.
-  change (v3_dot (v3_sub p a) (v3_sub b a)) with y.
-  rewrite !x2_eq. carrier_R.
+  cbv beta iota zeta delta -[Rplus Rmult Rminus Ropp Rdiv Rinv sqrt Rltb Rleb Reqb sign IZR Rlt Rle phi a2 rr l2 y X xi A v3x v3y v3z].
+  cbn [v3x v3y v3z].
+  (* cbv also unfolded the instance argument of [sign]: restore it *)
+  repeat match goal with |- context [@sign R ?I ?u] =>
+    lazymatch I with R_carrier => fail | _ => change (@sign R I u) with (@sign R R_carrier u) end end.
+  let L0 := eval cbv beta iota zeta delta [l2 d dot psub] in l2 in
+  let L := eval cbn [v3x v3y v3z] in L0 in change L with l2.
+  let Y0 := eval cbv beta iota zeta delta [y w d dot psub] in y in
+  let Y := eval cbn [v3x v3y v3z] in Y0 in change Y with y.
+  rewrite !x2_eq.
   change (r1 - r2) with rr. change (l2 - rr * rr) with a2.
   (* a guard `if a2 <= 0 { return Sphere(..) }` (proposed fix for nested end spheres) is not taken here *)
   try match goal with |- context [Rleb ?x ?z] =>
